@@ -34,7 +34,7 @@ type delims struct {
 }
 
 var refTable = map[int]delims{
-	0: {"", "", "", false}, 1: {"", "", "", false}, 2: {"//", "/*", "*/", false}, 3: {"#", "", "", false}, 4: {"@REM", "", "", false},
+	0: {"", "", "", false}, 1: {"--", "(*", "*)", false}, 2: {"//", "/*", "*/", false}, 3: {"#", "", "", false}, 4: {"@REM", "", "", false},
 	5: {"//", "/*", "*/", false}, 6: {"#", "", "", false}, 7: {";", "", "", false}, 8: {"#", "#[[", "]]", false}, 9: {"//", "/*", "*/", false},
 	10: {"//", "/*", "*/", false}, 11: {"", "", "", false}, 12: {"#", "", "", false}, 13: {"//", "/*", "*/", false}, 14: {"!", "", "", false},
 	15: {"//", "/*", "*/", false}, 16: {"//", "/*", "*/", false}, 17: {"", "<!--", "-->", false}, 18: {"--", "{-", "-}", false}, 19: {"//", "/*", "*/", false},
@@ -268,11 +268,22 @@ func c18Alphabet(lang int) []string {
 		add("%}")
 	}
 	add(" ")
+	if c18UnicodeText {
+		// comment / code TEXT beyond ASCII: 2-, 3- and 4-byte characters, the replacement character
+		// written out (valid UTF-8 that decodes to utf8.RuneError), an invalid byte, a truncated sequence
+		for _, s := range []string{"\u00e9", "\u4e16", "\U0001F600", "\ufffd", "\xff", "\xe2\x80", "\r"} {
+			add(s)
+		}
+	}
 	return out
 }
 
+// c18UnicodeText is set by the job parameter text=unicode (process wide).
+var c18UnicodeText bool
+
 func c18Lexer(c *vrep.Ctx) {
 	maxLen := c.ParamInt("maxlen", c.Pick(5, 6))
+	c18UnicodeText = c.Param("text", "ascii") == "unicode"
 	nlang := len(refTable)
 	c.R.Rule = fmt.Sprintf("for every one of the %d Language values: ALL strings of <=%d symbols over that language's delimiter alphabet (each delimiter as a whole and split into its characters/fragments, plus 'a', newline, backslash, quotes, blank; Python adds triple quotes, SQL/Objective-C their extra styles) compared with a straightforward reference lexer (frozen delimiter table): same comments in order, delimiter-free text, 1-based start/end lines, nothing from inside string literals; watchdog for hangs; non-trivial = distinct (language, string) cases in which the reference finds at least one comment", nlang, maxLen)
 	c.Bound("max_symbols", maxLen)
